@@ -49,10 +49,10 @@ AttributeListImpl::AttributeListImpl(MemoryManager&      theManager) :
 
 AttributeListImpl::~AttributeListImpl()
 {
-    // Clean up everything...
-    clear();
-
-    assert(m_AttributeVector.empty() == true);
+    // Clean up everything.  (Not through clear(): it moves the
+    // entries to the cache vector, which may have to grow, and
+    // a destructor must not depend on an allocation.)
+    deleteEntries(m_AttributeVector);
 
     deleteEntries(m_cacheVector);
 }
